@@ -82,6 +82,17 @@ CHECKS.update({
    text="Seeded schedules of 2-4 client threads (own session or autocommit; each writes its own table, reads any table) over 1-4 pool workers. Oracles: no deadlock (no eligible thread while a client call is unfinished - detected at the step it happens), every call returns within a step budget, no engine thread panics, no statement fails for internal reasons, every SELECT COUNT(*) lies between the inserts acknowledged before it was invoked and those invoked before it returned, and the final contents equal the acknowledged (and committed) inserts."),
 })
 
+E3B_NOTE = ("Drives the real Btree over a real Pager on a real file through hook H2 (facade::btree); the structural dump is read through the pager (so it also exercises eviction and re-read with tiny caches). Trusted base: the facade's plumbing (tuple construction, key serialisation, page walk), the BTreeMap model with the harness's own key order, the audit code. "
+            "The schedule/fault content of these two properties is thin: the only environment events are eviction write-backs / re-reads forced by small caches and checkpoints between operations; they are claimed as model-based simulation of a storage component. One payload size per tree and no overflow pages (open findings D31/D31b/D31c/D32). The page-graph audit of whole databases (catalog + all trees) during E1/E2 runs that DESIGN.md planned is not built.")
+CHECKS.update({
+ "C10": dict(engine="E3b-btreesim", level="exploration", ref="4 (C10), 2.3 (E3b)", note=E3B_NOTE,
+   technique="deterministic simulation of the storage component: seeded operation sequences on the real B+tree over a real pager under a configuration swarm (page size, min keys, siblings, caches down to 16 pages, checkpoints), BTreeMap reference model and structural audit after every mutation",
+   text="Seeded sequences of 10-400 insert / upsert / update / remove / lookup / scan / checkpoint operations with u64, i64 (negative half) and fixed-width text keys in ascending, descending, random and delete-everything orders; after every operation results equal a BTreeMap with the harness's own comparator, and after every mutation the tree is audited: keys strictly ordered within and across pages, every separator routes, all leaves at one depth, sibling links mirror key order and are mutually inverse, slot counts consistent, no page reached twice."),
+ "C11": dict(engine="E3b-btreesim", level="exploration", ref="4 (C11), 2.3 (E3b)", note=E3B_NOTE,
+   technique="deterministic simulation of the storage component with a page-ownership audit as invariant after every mutation: each page 1..total_pages is exactly one of tree node / overflow link / free-list member; free list acyclic with recorded head and tail; file does not grow while the free list is non-empty",
+   text="Same seeded runs as C10; the reported invariant is page ownership: after every mutation every page of the file except page zero has exactly one owner (node of the tree, link of one overflow chain, member of the free list), the free list is acyclic and matches its recorded head and tail, and an operation never grows the file while the free list stays non-empty. Scope: one tree per file (the catalog and multi-tree databases are not audited)."),
+})
+
 NOT_APPLICABLE = {
  "C05": "pure function of (table contents, query text): no schedule, crash point, clock or interleaving enters it; needs differential/property-based testing, not simulation",
  "C18": "pure function of (stored bytes, schema, snapshot, horizon); the property asks for bounded exhaustive enumeration of a codec, not simulation",
@@ -119,6 +130,7 @@ def main():
             "add_only": True,
         },
         "engines": [
+            {"name": "E3b-btreesim", "path": "/verif/sim/src/btsim.rs", "serves_properties": ["C10", "C11"], "kind_free_text": "storage-level simulator of the B+tree over a real pager through the verif facade: BTreeMap model, structural and page-ownership audits"},
             {"name": "E4-threadsim", "path": "/verif/sim/src/threadsim.rs", "serves_properties": ["C14"], "kind_free_text": "real threads under a baton scheduler installed through hook H3: one runnable thread at a time, seeded choice at every lock / latch / queue / job-wait point"},
             {"name": "E5-wiresim", "path": "/verif/sim/src/wiresim.rs", "serves_properties": ["C20"], "kind_free_text": "simulated byte stream (fragmentation, short writes, EINTR, EOF, garbage) under the real framing and codec"},
             {"name": "E3a-walsim", "path": "/verif/sim/src/walsim.rs", "serves_properties": ["C17"], "kind_free_text": "storage-level simulator of the write-ahead log over the verif facade, with crash at every I/O prefix"},
